@@ -452,3 +452,66 @@ async fn a_projection_at_a_coordinate_sees_only_the_claims_of_its_time() {
         "the rejection recorded later must not reach the earlier coordinate"
     );
 }
+
+/// A pattern that names a `state` is decided against the state the element
+/// had at the coordinate — the same answer the query gave when that
+/// coordinate was the present.
+#[tokio::test]
+async fn a_state_constraint_reads_the_state_of_the_coordinate() {
+    let nexus = nexus("as_of_state").await;
+    let (created, _) = commit(
+        &nexus,
+        r#"CREATE CONCEPT ?note { TYPE "Insight" NAME "Old note" SET ATTRIBUTES {summary: "s"} }"#,
+    )
+    .await;
+    let (archived, _) = commit(
+        &nexus,
+        r#"ARCHIVE ?c WHERE { ?c CONCEPT {name: "Old note"} }"#,
+    )
+    .await;
+
+    for (state, seq, expected) in [
+        ("active", created, vec![json!("Old note")]),
+        ("archived", created, vec![]),
+        ("active", archived, vec![]),
+        ("archived", archived, vec![json!("Old note")]),
+    ] {
+        for pattern in [
+            format!(r#"{{state: "{state}"}}"#),
+            format!(r#"{{id: "C-1", state: "{state}"}}"#),
+        ] {
+            let found = ok(
+                &nexus,
+                &format!(r#"FIND(?c.name) WHERE {{ ?c CONCEPT {pattern} }} AS OF SEQ {seq}"#),
+            )
+            .await;
+            assert_eq!(rows(&found), &expected, "{pattern} AS OF SEQ {seq}");
+        }
+    }
+}
+
+/// A key no index covers is compared as written at a coordinate too, whatever
+/// its type: only an indexed key is normalized to text first.
+#[tokio::test]
+async fn a_historical_pattern_compares_an_unindexed_key_as_written() {
+    let nexus = nexus("as_of_unindexed").await;
+    let (created, _) = commit(
+        &nexus,
+        r#"MUTATE {
+            CREATE CONCEPT ?alice { TYPE "Person" NAME "Alice" }
+            CREATE CONCEPT ?dark { TYPE "Preference" NAME "Dark" }
+            ENSURE PROPOSITION ?p (?alice, "prefers", ?dark)
+            CREATE ASSERTION ?a {
+                SET FIELDS {proposition: ?p, asserted_by: ?alice, stance: "support", mode: "stated", confidence: 0.5}
+            }
+        }"#,
+    )
+    .await;
+    commit(&nexus, r#"CREATE CONCEPT ?bob { TYPE "Person" NAME "Bob" }"#).await;
+
+    let query = r#"FIND(COUNT(?a)) WHERE { ?a ASSERTION {confidence: 0.5} }"#;
+    let now = ok(&nexus, query).await;
+    assert_eq!(rows(&now), &vec![json!(1)]);
+    let then = ok(&nexus, &format!("{query} AS OF SEQ {created}")).await;
+    assert_eq!(rows(&then), &vec![json!(1)]);
+}
